@@ -30,6 +30,10 @@ def bounds(tier):
             "container_sizes": [0, 1, 2, 255, 256, 300]}
 
 
+def hosts(tier):
+    return common.HOSTS
+
+
 def prepare(tier):
     return {"consts": common.datasets("consts", common.REFS, tier)}
 
